@@ -451,6 +451,9 @@ class SpecEvalMixin:
                 v = self.unwrap(self._sp(env, n.args[0]))
                 attr = n.args[1].value
                 return VBool(self.hasattr_term(st, v, attr))
+            if name == "has":        # raw presence flag of a dynamic attribute (without __getattr__)
+                v = self.unwrap(self._sp(env, n.args[0]))
+                return VBool(self.has_dyn(st, v, n.args[1].value))
             if name == "fresh":
                 v = self.unwrap(self._sp(env, n.args[0]))
                 if env.old_st is None:
